@@ -1,7 +1,104 @@
-(* C03 — Field algebra is cell-wise numpy algebra on one mesh; operands stay untouched. *)
-From DF Require Import Prelude FieldK Region Mesh Ops C03_proofs.
+(* C03 — Field algebra is cell-wise numpy algebra on one mesh; operands stay untouched.
+   Statements only.  K is an arbitrary commutative ring of cell values (ring_theory hypothesis: every
+   field, in particular the reals and the complex numbers), un / bin are arbitrary cell functions
+   (numpy's non-algebraic ufuncs), expression trees have arbitrary depth, meshes any number of cells. *)
+From Coq Require Import Qcanon.
+From DF Require Import Prelude FieldK Region Mesh Ops C03_proofs C03_more.
 
+Definition RLaws (K : FOps) : Prop :=
+  ring_theory (f0 K) (f1 K) (@fadd K) (@fmul K) (@fsub K) (@fopp K) eq.
+
+(* the evaluator (model of the operator code) computes, in every cell, the plain cell-wise value of the
+   expression under numpy broadcasting of the component axis; the result lives on the common mesh and is
+   valid exactly where all field operands are valid *)
+Theorem C03_cellwise : forall (K : FOps) un bin, RLaws K ->
+  forall (rho : list (field K)) N m e f,
+  Forall (wf_leaf K N m) rho -> consts_ok K N e ->
+  eval K un bin rho e = OK (VF f) ->
+  fmesh f = m /\ length (farr f) = N /\ length (fvalid f) = N /\
+  forall c, (c < N)%nat ->
+    nth c (farr f) [] = den K un bin rho e c /\ nth c (fvalid f) true = den_valid K rho e c.
+Proof. exact cellwise. Qed.
+Print Assumptions C03_cellwise.
+
+Example C03_cellwise_nonvacuous :
+  exists f, eval QcOps (fun _ x => x) (fun _ x _ => x) [wf1; wf2]
+                 (Bin (Alg Sub) (Const (@CVec QcOps false [Q2Qc 1; Q2Qc 2])) (Bin (Alg Mul) (Leaf 0) (Un Neg (Leaf 1)))) = OK (VF f)
+            /\ Forall (wf_leaf QcOps 1 wmesh) [wf1; wf2].
+Proof. eexists. split; [vm_compute; reflexivity|]. repeat constructor. Qed.
+
+(* fields on different meshes are rejected (allclose for the operators / ufuncs, == for <<) *)
+Theorem C03_reject_other_mesh : forall (K : FOps) un bin o (f g : field K),
+  arithmetic o = true -> mesh_allclose (fmesh f) (fmesh g) <> OK true ->
+  is_ok (eval_bin K un bin o f (VF g)) = false.
+Proof. exact reject_other_mesh. Qed.
+Print Assumptions C03_reject_other_mesh.
+
+Theorem C03_reject_other_mesh_stack : forall (K : FOps) un bin (f g : field K),
+  mesh_eqb (fmesh f) (fmesh g) = false -> eval_bin K un bin Stack f (VF g) = Err ValueE.
+Proof. exact reject_other_mesh_stack. Qed.
+Print Assumptions C03_reject_other_mesh_stack.
+
+(* incompatible component counts (different, none of them 1) are rejected *)
+Theorem C03_reject_component_count : forall (K : FOps) un bin (a : aop) (f g : field K),
+  fnv f <> fnv g -> fnv f <> 1%nat -> fnv g <> 1%nat ->
+  is_ok (eval_bin K un bin (Alg a) f (VF g)) = false /\
+  is_ok (eval_bin K un bin (Uf2 (CAlg a)) f (VF g)) = false /\
+  is_ok (eval_bin K un bin Dot f (VF g)) = false /\
+  is_ok (eval_bin K un bin Cross f (VF g)) = false /\
+  is_ok (eval_bin K un bin Angle f (VF g)) = false.
+Proof. exact reject_component_count. Qed.
+Print Assumptions C03_reject_component_count.
+
+Theorem C03_reject_unsupported_operand : forall (K : FOps) un bin (f : field K) np x g,
+  eval_bin K un bin Dot f (VC (CNum np x)) = Err TypeE /\
+  eval_bin K un bin Cross f (VC (CNum np x)) = Err TypeE /\
+  eval_rbin K bin (Alg Pow) (CNum false x) g = Err TypeE.
+Proof. exact reject_unsupported. Qed.
+Print Assumptions C03_reject_unsupported_operand.
+
+(* a*b and b*a (a+b and b+a) are the same field -- values, validity, mesh, labels, mapping -- whenever
+   a scalar meets a vector or both operands carry the same labels ... *)
+Theorem C03_commutative_partial : forall (K : FOps) bin, RLaws K ->
+  forall (a : aop) (f g r : field K),
+  (a = Add \/ a = Mul) -> fmesh f = fmesh g -> (1 <= fnv f)%nat -> (1 <= fnv g)%nat ->
+  (fnv f = fnv g -> fvdims f = fvdims g /\ fvmap f = fvmap g) ->
+  apply_op K (alg K bin a) f (VF g) = OK r -> apply_op K (alg K bin a) g (VF f) = OK r.
+Proof. exact commutative. Qed.
+Print Assumptions C03_commutative_partial.
+
+(* ... and the unrestricted statement is false of the code: two vector fields with different labels
+   (known finding C03-commutative-distinct-labels; the values still agree) *)
+Theorem C03_commutative_refuted :
+  exists (f g r1 r2 : field QcOps),
+    fmesh f = fmesh g /\
+    apply_op QcOps (@fmul QcOps) f (VF g) = OK r1 /\ apply_op QcOps (@fmul QcOps) g (VF f) = OK r2 /\
+    farr r1 = farr r2 /\ fvdims r1 <> fvdims r2.
+Proof. exact commutative_labels_refuted. Qed.
+Print Assumptions C03_commutative_refuted.
+
+(* stacking the components of a field reproduces its values and validity *)
+Theorem C03_stack_components : forall (K : FOps) un bin, RLaws K ->
+  forall (rho : list (field K)) N m i j f r,
+  Forall (wf_leaf K N m) rho -> nth_error rho i = Some f ->
+  Forall (fun cell => length cell = S j) (farr f) ->
+  eval K un bin rho (stack_from K (Leaf i) j) = OK (VF r) ->
+  farr r = farr f /\ fvalid r = fvalid f /\ fmesh r = fmesh f.
+Proof. exact stack_components. Qed.
+Print Assumptions C03_stack_components.
+
+Example C03_stack_components_nonvacuous :
+  exists r, eval QcOps (fun _ x => x) (fun _ x _ => x) [wf1] (stack_from QcOps (Leaf 0) 1) = OK (VF r).
+Proof. eexists. vm_compute. reflexivity. Qed.
+
+(* operands stay untouched: evaluation is a function of the operands (no state), and the only
+   expressions that hand an operand object back are +(+(...f)) *)
 Theorem C03_pure_identity : forall (K : FOps) (e : expr K) i,
   alias_of e = Some i -> strip_pos e = Leaf i.
 Proof. exact alias_of_strip. Qed.
 Print Assumptions C03_pure_identity.
+
+Theorem C03_pure_alias_is_operand : forall (K : FOps) un bin (rho : list (field K)) e i v,
+  alias_of e = Some i -> eval K un bin rho e = OK v -> exists f, nth_error rho i = Some f /\ v = VF f.
+Proof. exact alias_is_operand. Qed.
+Print Assumptions C03_pure_alias_is_operand.
